@@ -180,10 +180,10 @@ PROPS["C18"] = {
     "level_text": "held on N executions: EVERY sequence of the 7 timer actions (poll, shell fires, app clears, handle dropped, request dropped, clear answered, clear request dropped; late and duplicate answers arise as repeats) up to the stated length, for notify_after and notify_at, followed the per-timer reference automaton (requests sent, clear requests sent, outcomes, nothing after the outcome); random interleavings of 2-5 timers in one command did too; ids from the enumeration and from 4 concurrent threads were pairwise distinct.",
     "level_note": "the automaton (timelab.rs `Expect`) is the statement of the property; single-timer interleavings are enumerated exhaustively up to the length bound, multi-timer ones are sampled",
     "technique": "exhaustive action-sequence enumeration against a per-timer outcome automaton + id uniqueness ledger",
-    "rule": "all 7^k sequences for k <= 6 (quick) / 7 (thorough) x {notify_after, notify_at}; random scripts for 2-5 timers; non-trivial = sequence of length >= 2; distinct = hash of (sequence, kind)",
+    "rule": "all 7^k sequences for k <= 6 (quick) / 8 (thorough) x {notify_after, notify_at}; random scripts for 2-5 timers; non-trivial = sequence of length >= 2; distinct = hash of (sequence, kind)",
     "lanes": [caplab("timelab", 8, 16)],
     "floors": {"quick": {"evaluations": 250000, "distinct_nontrivial": 250000, "multi_timer_runs": 3000},
-               "thorough": {"evaluations": 1900000, "distinct_nontrivial": 1900000}},
+               "thorough": {"evaluations": 12000000, "distinct_nontrivial": 5000000}},
     "must_cover": {"end_classes": ["Done/Some(false)/req0clr0", "Done/Some(false)/req1clr1", "Done/Some(true)/req1clr0", "ClearPending/None/req1clr1"]},
     "assumptions": ["response kinds match the request (an InstantArrived answer to NotifyAfter is a documented developer-error panic)"],
 }
